@@ -24,3 +24,4 @@ import Retro.Props.C01.IdealFrag
 import Retro.Props.C01.Ideal
 import Retro.Props.C01.VisibleRender
 import Retro.Props.C01.VisibleEx
+import Retro.Props.C01.Examples
